@@ -85,6 +85,31 @@ func propEndings(c harness.Case) harness.Result {
 		res.Err = fmt.Errorf("CR changes the rendering:\n LF: %q\n CR: %q", base, h)
 		return res
 	}
+	// the same under other renderer configurations (the tag filter reads tag
+	// names up to white space, which a CR is; soft breaks are rewritten)
+	for _, r := range []*cm.HTMLRenderer{
+		{FilterTag: cm.FilterTagGFM},
+		{FilterTag: func(tag []byte) bool { return len(tag) > 0 && (tag[0]|0x20) >= 'a' && (tag[0]|0x20) <= 'p' }, SoftBreakBehavior: cm.SoftBreakHarden},
+		{IgnoreRaw: true, SoftBreakBehavior: cm.SoftBreakSpace},
+	} {
+		rend := func(in []byte) string {
+			blocks, refs := cm.Parse(append([]byte(nil), in...))
+			rr := *r
+			rr.ReferenceMap = refs
+			var buf bytes.Buffer
+			rr.Render(&buf, blocks)
+			return buf.String()
+		}
+		b0 := rend(x)
+		if h := strings.ReplaceAll(rend(crlf), "\r\n", "\n"); h != b0 {
+			res.Err = fmt.Errorf("CRLF changes the rendering (filter set=%v ignoreRaw=%v soft=%v):\n LF:   %q\n CRLF: %q", r.FilterTag != nil, r.IgnoreRaw, r.SoftBreakBehavior, b0, h)
+			return res
+		}
+		if h := strings.ReplaceAll(rend(cr), "\r", "\n"); h != b0 {
+			res.Err = fmt.Errorf("CR changes the rendering (filter set=%v ignoreRaw=%v soft=%v):\n LF: %q\n CR: %q", r.FilterTag != nil, r.IgnoreRaw, r.SoftBreakBehavior, b0, h)
+			return res
+		}
+	}
 	// the same through the streaming entry point, one byte per read (a CRLF pair
 	// then always straddles two reads)
 	for _, v := range []struct {
